@@ -152,6 +152,7 @@ func TestC03(t *testing.T) {
 		Level: "exploration",
 		Rule: "rapid draws histories of 1-25 transactions (1-4 create / full update / field-restricted update / delete operations each, some aborted by the caller, some through Db.Batch) over ids e1..e5, names {a,b,c,''}, aliases {null,x,y,''}, roles within {r1,r2,r3}, plus hostile values (empty role, 40 kB name, 33 kB alias). " +
 			"A model predicts each operation's outcome (accepted, duplicate, empty value, not found, already exists, storage error); after every transaction the unique indexes on name (non-nullable) and alias (nullable) and the set index on roles are compared bucket by bucket and through ReadIndex/SetReadIndex with the model-derived state, every entity is re-read, and a failed transaction must leave the full database dump unchanged. " +
+			"Also generated: base paths 1-4 segments deep, symbols registered under a key that differs from their name, a unique index over an int64 field (half of the cases), an extended child store plus a plain child store with its own unique index (a third), system contexts. " +
 			"Non-trivial history: a rejected transaction followed by a committed one, or a unique value re-used after delete / handed from one entity to another, or a patch that skips the indexed name while its payload differs. Distinct by hash of the history JSON; sub_evaluations counts transactions.",
 		Assumptions: []string{"'changes nothing' is asserted at transaction granularity (an error aborts the bbolt transaction; continuing inside a failed transaction is not a documented use)",
 			"set indexes are over string sets (the only list type PersistContext writes); sets of other element types need hand-rolled persistence and are outside the domain"},
